@@ -54,6 +54,33 @@ PROPS = {
         streams=[
             S("limit", ["--cases", 400], ["--cases", 30000]),
             S("chunks", ["--cases", 150, "--cutlen", 120], ["--cases", 5000, "--cutlen", 300]),
+            S("pack", ["--cases", 25], ["--cases", 1500]),
+        ],
+    ),
+    "C01": dict(
+        lean_modules=["Beetswap.Props.C01"],
+        model_scope=CID_SCOPE + "; " + NODE_SCOPE,
+        assumptions=CID_ASSUME + NODE_ASSUME,
+        streams=[
+            S("procmsg", ["--cases", 300], ["--cases", 30000]),
+            S("node", ["--cases", 100], ["--cases", 5000, "--ops", 120]),
+        ],
+    ),
+    "C03": dict(
+        lean_modules=["Beetswap.Props.C03"],
+        model_scope=NODE_SCOPE,
+        assumptions=NODE_ASSUME,
+        streams=[
+            S("node", ["--cases", 150, "--keys", 3], ["--cases", 8000, "--keys", 3, "--ops", 150]),
+        ],
+    ),
+    "C13": dict(
+        lean_modules=["Beetswap.Props.C13"],
+        model_scope=NODE_SCOPE,
+        assumptions=NODE_ASSUME,
+        streams=[
+            S("node", ["--cases", 100], ["--cases", 5000, "--ops", 200]),
+            S("nodebig", ["--cases", 15], ["--cases", 400]),
         ],
     ),
     "C06": dict(
